@@ -605,6 +605,14 @@ impl<'a> Lock<'a> {
                     self.oracle_failures.push((self.steps, "parked-without-select".into(), msg));
                     continue;
                 };
+                if st.start_time.is_none() {
+                    let msg = format!(
+                        "lost wake-up: process {pid} on worker {i} is parked in a select that has never been evaluated (start_time None: its timeout has not started, its mailbox ({} messages) was never scanned) and the system is quiescent: the answer to its await never woke it",
+                        p.mailbox.len()
+                    );
+                    self.oracle_failures.push((self.steps, "lost-wakeup-select-never-started".into(), msg));
+                    continue;
+                }
                 for s in &st.sources {
                     let ready = match s {
                         Value::Process(t, _) => matches!(p.awaiting.get(t), Some(Some(_))),
@@ -631,9 +639,8 @@ impl<'a> Lock<'a> {
         let n = self.sim.n_workers();
         let mut finished_at: Option<usize> = None;
         for _ in 0..max_steps {
-            if self.mismatch.is_some() {
-                return false;
-            }
+            // after a model/implementation disagreement the run continues on the implementation
+            // alone so that the oracles are still evaluated on its final state
             if finished_at.is_none() && done(&mut self.sim) {
                 if !settle {
                     return true;
